@@ -43,12 +43,25 @@ fn named(g: &mut Gen, lens: &[usize]) -> Vec<(&'static str, usize)> {
     lens.iter().enumerate().map(|(i, l)| (intern(pool[i]), *l)).collect()
 }
 
-const GET_VIAS: [&str; 8] = [
+const GET_VIAS: [&str; 12] = [
     "try_get_reference", "get_ref", "get", "try_get_reference_mut", "get_ref_mut", "tensorref",
-    "tensormut", "noclone",
+    "tensormut", "noclone", "view_index_by", "view_index_by_mut", "view_index_by_owned",
+    "view_owned",
 ];
+/// getters that go through the source-order accessors (`index`, `index_mut`, `index_owned` of
+/// Tensor and TensorView); only meaningful when the requested order is the tensor's own
+const GET_VIAS_SOURCE_ORDER: [&str; 6] =
+    ["index", "index_mut", "index_owned", "view_index", "view_index_mut", "view_index_owned"];
 const SET_VIAS: [&str; 3] = ["get_ref_mut", "try_get_reference_mut", "tensormut"];
-const INDEX_VIAS: [&str; 5] = ["index_by", "index_by_mut", "index_by_owned", "try_from", "from"];
+const INDEX_VIAS: [&str; 9] = [
+    "index_by", "index_by_mut", "index_by_owned", "try_from", "from", "view_index_by",
+    "view_index_by_mut", "view_index_by_owned", "view_owned",
+];
+
+/// the producer handed to `Tensor::from_fn` (the Lean driver uses the same)
+fn code(idx: &[usize]) -> u64 {
+    idx.iter().fold(1000u64, |acc, &i| acc * 7 + i as u64 + 1)
+}
 
 fn index_tuples(lens: &[usize], ring: &[usize]) -> Vec<Vec<usize>> {
     // every coordinate in 0..=len plus the extra `ring` values, for every dimension
@@ -69,11 +82,28 @@ fn index_tuples(lens: &[usize], ring: &[usize]) -> Vec<Vec<usize>> {
     out
 }
 
-fn gen_tensor_case(g: &mut Gen, shape: &[(&'static str, usize)], all_perms: bool, full_indexes: bool) {
+fn gen_tensor_case(g: &mut Gen, shape: &[(&'static str, usize)], all_perms: bool, full_indexes: bool, ctor: &str) {
     let d = shape.len();
     let n: usize = shape.iter().map(|s| s.1).product();
-    g.op(format!("@ from {} {}", show_shape(shape), n));
+    if ctor == "from_fn" {
+        g.op(format!("@ from_fn {}", show_shape(shape)));
+        g.count("constructor.from_fn");
+    } else {
+        g.op(format!("@ from {} {}", show_shape(shape), n));
+    }
     g.count(&format!("tensor.D={}", d));
+    // shape look-ups: names, element count, position / length / last index of every name
+    g.op("names".to_string());
+    g.count("names");
+    {
+        let mut asked: Vec<&str> = shape.iter().map(|s| s.0).collect();
+        asked.push("zz");
+        for name in asked {
+            let via = *g.rng.pick(&["tensor", "view", "dims"]);
+            g.op(format!("dim {} via={}", name, via));
+            g.count(&format!("dim.via.{}", via));
+        }
+    }
     let mut perms = permutations(d);
     if !all_perms && perms.len() > 3 {
         g.rng.shuffle(&mut perms);
@@ -82,9 +112,15 @@ fn gen_tensor_case(g: &mut Gen, shape: &[(&'static str, usize)], all_perms: bool
     for perm in perms {
         let names: Vec<&str> = perm.iter().map(|&p| shape[p].0).collect();
         let lens: Vec<usize> = perm.iter().map(|&p| shape[p].1).collect();
-        let via = *g.rng.pick(&INDEX_VIAS);
+        let identity = (0..d).all(|i| perm[i] == i);
+        let via = if identity && g.rng.chance(1, 2) {
+            *g.rng.pick(&GET_VIAS_SOURCE_ORDER)
+        } else {
+            *g.rng.pick(&INDEX_VIAS)
+        };
         g.op(format!("index_by {} via={}", show_names(&names), via));
         g.count("index_by.permutation");
+        g.count(&format!("index_by.via.{}", via));
         let involution = (0..d).all(|i| perm[perm[i]] == i);
         if !involution {
             g.count("index_by.non_involutive_permutation");
@@ -112,6 +148,8 @@ fn gen_tensor_case(g: &mut Gen, shape: &[(&'static str, usize)], all_perms: bool
             g.count(if inside { "get.in_bounds" } else { "get.out_of_bounds" });
             let via = if inside && g.rng.chance(1, 8) {
                 "unchecked"
+            } else if identity && g.rng.chance(1, 3) {
+                *g.rng.pick(&GET_VIAS_SOURCE_ORDER)
             } else {
                 *g.rng.pick(&GET_VIAS)
             };
@@ -188,12 +226,53 @@ fn gen_constructor_cases(g: &mut Gen) {
     }
 }
 
+fn gen_extra_constructor_cases(g: &mut Gen) {
+    // Tensor::from_fn on shapes it must reject (the producer is never or partly run)
+    for shape in [
+        vec![("a", 0usize)],
+        vec![("a", 2), ("a", 3)],
+        vec![("a", 2), ("b", 0)],
+        vec![("a", 0), ("a", 0)],
+        vec![("a", 2), ("b", 3), ("a", 2)],
+    ] {
+        let shape: Vec<(&'static str, usize)> = shape.iter().map(|(n, l)| (intern(n), *l)).collect();
+        g.op(format!("@ from_fn {}", show_shape(&shape)));
+        g.count("constructor.from_fn.rejected");
+    }
+    // 0-dimensional tensors from a scalar
+    for via in ["from_scalar", "from", "into"] {
+        let v = g.rng.below(1000);
+        g.op(format!("@ from_scalar {} via={}", v, via));
+        g.op("names".to_string());
+        g.op("dim zz via=tensor".to_string());
+        for iv in ["index_by", "index", "index_owned", "view_index_owned", "try_from"] {
+            g.op(format!("index_by - via={}", iv));
+            g.op("get - via=get".to_string());
+            g.op("get - via=index_owned".to_string());
+            g.op("set - via=get_ref_mut".to_string());
+        }
+        g.count("constructor.from_scalar");
+    }
+    // the plain record InvalidDimensionsError<D, P>
+    for (provided, valid) in [
+        ("-", "-"), ("a", "a,b"), ("a,a", "a,b"), ("x,y,x", "a"), ("a,b,c", "a,b,c"), ("-", "a,b,c"),
+        ("b,a", "-"),
+    ] {
+        g.op(format!("@ from a:1 1"));
+        g.op(format!("dimerr {} {}", provided, valid));
+        g.count("dimerr");
+    }
+}
+
 pub fn gen(g: &mut Gen) {
     gen_constructor_cases(g);
+    gen_extra_constructor_cases(g);
     let (max_d, max_p) = if g.thorough { (4, 24) } else { (3, 12) };
     for lens in shapes_up_to(max_d, max_p) {
         let shape = named(g, &lens);
-        gen_tensor_case(g, &shape, true, true);
+        gen_tensor_case(g, &shape, true, true, "from");
+        // the same shape built by `from_fn` (sampled index tuples)
+        gen_tensor_case(g, &shape, true, false, "from_fn");
     }
     // random larger shapes, D up to 6
     let n_random = if g.thorough { 400 } else { 60 };
@@ -211,7 +290,8 @@ pub fn gen(g: &mut Gen) {
             }
         }
         let shape = named(g, &lens);
-        gen_tensor_case(g, &shape, false, false);
+        let ctor = if g.rng.chance(1, 3) { "from_fn" } else { "from" };
+        gen_tensor_case(g, &shape, false, false, ctor);
     }
 }
 
@@ -227,7 +307,12 @@ struct St<const D: usize> {
 fn fresh<const D: usize>(shape: &[(&'static str, usize)], n: usize, kind: &str) -> (Option<St<D>>, String) {
     let shape: [(&'static str, usize); D] = shape_array(shape);
     let data: Vec<u64> = (0..n as u64).collect();
-    if kind == "from" {
+    if kind == "from_fn" {
+        match catch(|| Tensor::from_fn(shape, |idx: [usize; D]| code(&idx))) {
+            Ok(t) => (Some(St { tensor: t, names: None }), "ok".into()),
+            Err(k) => (None, panic_str(k)),
+        }
+    } else if kind == "from" {
         match catch(|| Tensor::from(shape, data)) {
             Ok(t) => (Some(St { tensor: t, names: None }), "ok".into()),
             Err(k) => (None, panic_str(k)),
@@ -236,8 +321,17 @@ fn fresh<const D: usize>(shape: &[(&'static str, usize)], n: usize, kind: &str) 
         match catch(|| Tensor::try_from(shape, data)) {
             Ok(Ok(t)) => (Some(St { tensor: t, names: None }), "ok".into()),
             Ok(Err(e)) => {
-                // the error carries the offending shape
-                if e.shape() == shape { (None, "err".into()) } else { (None, "err-wrong-payload".into()) }
+                // the error carries the offending shape; `is_valid` says whether only the
+                // element count was wrong
+                let same = e.shape() == shape
+                    && *e.shape_ref() == shape
+                    && e == easy_ml::tensors::InvalidShapeError::new(shape)
+                    && !format!("{}", e).is_empty();
+                if same {
+                    (None, format!("err valid={}", e.is_valid()))
+                } else {
+                    (None, "err-wrong-payload".into())
+                }
             }
             Err(k) => (None, panic_str(k)),
         }
@@ -259,11 +353,50 @@ fn index_by<const D: usize>(st: &mut St<D>, names: &[&'static str], via: &str) -
             catch(move || copy.index_by_owned(names).shape()).map_err(reject)
         }
         "from" => catch(|| TensorAccess::from(&*t, names).shape()).map_err(reject),
-        "try_from" => match catch(|| TensorAccess::try_from(&*t, names).map(|a| a.shape())) {
-            Ok(Ok(s)) => Ok(s),
-            Ok(Err(_)) => Err("reject".into()),
-            Err(k) => Err(panic_str(k)),
-        },
+        "try_from" => {
+            let shape = t.shape();
+            match catch(|| TensorAccess::try_from(&*t, names).map(|a| a.shape())) {
+                Ok(Ok(s)) => Ok(s),
+                // the error reports the source's shape and the names that were asked for
+                Ok(Err(e)) => {
+                    if e.actual == shape && e.requested == names && !format!("{}", e).is_empty() {
+                        Err("reject".into())
+                    } else {
+                        Err("reject-wrong-payload".into())
+                    }
+                }
+                Err(k) => Err(panic_str(k)),
+            }
+        }
+        "view_index_by" => catch(|| t.view().index_by(names).shape()).map_err(reject),
+        "view_index_by_mut" => catch(|| t.view_mut().index_by_mut(names).shape()).map_err(reject),
+        "view_index_by_owned" => {
+            let copy = t.clone();
+            catch(move || copy.view_owned().index_by_owned(names).shape()).map_err(reject)
+        }
+        "view_owned" => {
+            let copy = t.clone();
+            catch(move || copy.view_owned().index_by(names).shape()).map_err(reject)
+        }
+        // source-order accessors: no names are passed, the order is the tensor's own
+        "index" | "index_mut" | "index_owned" | "view_index" | "view_index_mut" | "view_index_owned" => {
+            if easy_ml::tensors::dimensions::names_of(&t.shape()) != names {
+                return "bad-op".into();
+            }
+            let copy = t.clone();
+            catch(move || {
+                let mut copy = copy;
+                match via {
+                    "index" => copy.index().shape(),
+                    "index_mut" => copy.index_mut().shape(),
+                    "index_owned" => copy.index_owned().shape(),
+                    "view_index" => copy.view().index().shape(),
+                    "view_index_mut" => copy.view_mut().index_mut().shape(),
+                    _ => copy.view_owned().index_owned().shape(),
+                }
+            })
+            .map_err(reject)
+        }
         other => panic!("unknown via {}", other),
     };
     match result {
@@ -314,6 +447,37 @@ fn get<const D: usize>(st: &mut St<D>, idx: &[usize], via: &str) -> String {
         "tensorref" => catch(|| TensorRef::get_reference(&t.index_by(names), idx).copied()),
         "tensormut" => catch(|| TensorMut::get_reference_mut(&mut t.index_by_mut(names), idx).map(|r| *r)),
         "unchecked" => catch(|| Some(unsafe { *t.index_by(names).get_reference_unchecked(idx) })),
+        "view_index_by" => catch(|| t.view().index_by(names).try_get_reference(idx).copied()),
+        "view_index_by_mut" => {
+            catch(|| t.view_mut().index_by_mut(names).try_get_reference_mut(idx).map(|r| *r))
+        }
+        "view_index_by_owned" => {
+            let copy = t.clone();
+            catch(move || copy.view_owned().index_by_owned(names).try_get_reference(idx).copied())
+        }
+        "view_owned" => {
+            let copy = t.clone();
+            catch(move || copy.view_owned().index_by(names).try_get_reference(idx).copied())
+        }
+        "index" | "index_mut" | "index_owned" | "view_index" | "view_index_mut" | "view_index_owned" => {
+            if easy_ml::tensors::dimensions::names_of(&t.shape()) != names {
+                // not the tensor's own order: these accessors do not apply
+                catch(|| t.index_by(names).try_get_reference(idx).copied())
+            } else {
+                let copy = t.clone();
+                catch(move || {
+                    let mut copy = copy;
+                    match via {
+                        "index" => copy.index().try_get_reference(idx).copied(),
+                        "index_mut" => copy.index_mut().try_get_reference_mut(idx).map(|r| *r),
+                        "index_owned" => copy.index_owned().try_get_reference(idx).copied(),
+                        "view_index" => copy.view().index().try_get_reference(idx).copied(),
+                        "view_index_mut" => copy.view_mut().index_mut().try_get_reference_mut(idx).map(|r| *r),
+                        _ => copy.view_owned().index_owned().try_get_reference(idx).copied(),
+                    }
+                })
+            }
+        }
         "noclone" => {
             let nc: Tensor<NoClone, D> = Tensor::from(t.shape(), t.iter().map(NoClone).collect());
             catch(move || nc.index_by(names).try_get_reference(idx).map(|r| r.0))
@@ -369,6 +533,76 @@ fn set<const D: usize>(st: &mut St<D>, idx: &[usize], via: &str) -> String {
     }
 }
 
+fn show_opt_usize(o: Option<usize>) -> String {
+    match o {
+        Some(v) => format!("some({})", v),
+        None => "none".into(),
+    }
+}
+
+fn dim<const D: usize>(st: &St<D>, name: &'static str, via: &str) -> String {
+    use easy_ml::tensors::dimensions;
+    let t = &st.tensor;
+    let shape = t.shape();
+    if t.shape_ref_check() != shape {
+        return "shape-vs-shape_ref".into();
+    }
+    let (len, last) = match via {
+        "tensor" => (t.length_of(name), t.last_index_of(name)),
+        "view" => (t.view().length_of(name), t.view().last_index_of(name)),
+        _ => (dimensions::length_of(&shape, name), dimensions::last_index_of(&shape, name)),
+    };
+    format!(
+        "pos={} contains={} len={} last={}",
+        show_opt_usize(dimensions::position_of(&shape, name)),
+        dimensions::contains(&shape, name),
+        show_opt_usize(len),
+        show_opt_usize(last)
+    )
+}
+
+trait ShapeRefCheck<const D: usize> {
+    fn shape_ref_check(&self) -> [(&'static str, usize); D];
+}
+impl<const D: usize> ShapeRefCheck<D> for Tensor<u64, D> {
+    // `view_shape` of the TensorRef impl, which must agree with `shape()`
+    fn shape_ref_check(&self) -> [(&'static str, usize); D] {
+        TensorRef::view_shape(self)
+    }
+}
+
+fn names_op<const D: usize>(st: &St<D>) -> String {
+    use easy_ml::tensors::dimensions;
+    let shape = st.tensor.shape();
+    let names = dimensions::names_of(&shape);
+    format!("names={} elements={}", show_names(&names), dimensions::elements(&shape))
+}
+
+fn dimerr(provided: &[&'static str], valid: &[&'static str]) -> String {
+    use easy_ml::tensors::InvalidDimensionsError;
+    with_d!(valid.len(), D => {
+        with_d!(provided.len(), P => {
+            let p: [&'static str; P] = names_array(provided);
+            let v: [&'static str; D] = names_array(valid);
+            let e: InvalidDimensionsError<D, P> = InvalidDimensionsError::new(p, v);
+            let consistent = e.provided_names() == *e.provided_names_ref()
+                && e.valid_names() == *e.valid_names_ref()
+                && e.clone() == e
+                && !format!("{}", e).is_empty();
+            if !consistent {
+                "dimerr-inconsistent".to_string()
+            } else {
+                format!(
+                    "provided={} valid={} dup={}",
+                    show_names(&e.provided_names()),
+                    show_names(&e.valid_names()),
+                    e.has_duplicates()
+                )
+            }
+        })
+    })
+}
+
 enum AnySt {
     None,
     D0(St<0>), D1(St<1>), D2(St<2>), D3(St<3>), D4(St<4>), D5(St<5>), D6(St<6>),
@@ -396,6 +630,41 @@ impl Runner {
 
     pub fn step(&mut self, toks: &[&str]) -> String {
         match toks {
+            ["@", "from_fn", shape_s, ..] => {
+                let shape = parse_shape(shape_s);
+                macro_rules! mk {
+                    ($D:literal, $V:ident) => {{
+                        let (st, ans) = fresh::<$D>(&shape, 0, "from_fn");
+                        self.st = match st { Some(s) => AnySt::$V(s), None => AnySt::None };
+                        ans
+                    }};
+                }
+                match shape.len() {
+                    0 => mk!(0, D0), 1 => mk!(1, D1), 2 => mk!(2, D2), 3 => mk!(3, D3),
+                    4 => mk!(4, D4), 5 => mk!(5, D5), 6 => mk!(6, D6),
+                    _ => "bad-op".into(),
+                }
+            }
+            ["@", "from_scalar", v_s, rest @ ..] => {
+                let v: u64 = v_s.parse().unwrap();
+                let t: Tensor<u64, 0> = match opt_arg("via", rest).unwrap_or("from_scalar") {
+                    "from" => <Tensor<u64, 0> as From<u64>>::from(v),
+                    "into" => v.into(),
+                    _ => Tensor::from_scalar(v),
+                };
+                self.st = AnySt::D0(St { tensor: t, names: None });
+                "ok".into()
+            }
+            ["dimerr", provided_s, valid_s, ..] => match &self.st {
+                AnySt::None => "no-tensor".into(),
+                _ => dimerr(&parse_names(provided_s), &parse_names(valid_s)),
+            },
+            ["dim", name, rest @ ..] => {
+                let via = opt_arg("via", rest).unwrap_or("tensor");
+                let name = intern(name);
+                on_state!(&mut self.st, s => dim(s, name, via))
+            }
+            ["names", ..] => on_state!(&mut self.st, s => names_op(s)),
             ["@", kind, shape_s, n_s] => {
                 let shape = parse_shape(shape_s);
                 let n: usize = n_s.parse().unwrap();
